@@ -24,6 +24,8 @@ for sid in sorted(x for x in os.listdir(os.path.join(VERIF, 'seeded')) if os.pat
     meta = json.load(open(os.path.join(d, 'meta.json')))
     target = '/repo'
     env = dict(os.environ)
+    if '--cex' not in sys.argv:
+        env['VERIF_NO_KANI_CEX'] = '1'     # the matrix only needs caught / not caught
     if use_wt:
         import tempfile
         target = tempfile.mkdtemp(prefix='rivia-seedrun-'); os.rmdir(target)
@@ -47,9 +49,10 @@ for sid in sorted(x for x in os.listdir(os.path.join(VERIF, 'seeded')) if os.pat
     caught = [p for p, x in res.items() if x['rc'] == 1]
     und = [p for p, x in res.items() if x['rc'] == 2]
     out[sid] = {'breaks': meta['breaks_property'], 'caught_by': caught, 'undecided': und, 'detail': {p: x for p, x in res.items() if x['rc'] != 0}}
+    rp = os.path.join(VERIF, 'seeded', 'RESULTS.json')
+    allr = json.load(open(rp)) if os.path.exists(rp) else {}
+    allr[sid] = out[sid]
+    json.dump(allr, open(rp, 'w'), indent=1, sort_keys=True)
     print('%-8s breaks=%s caught_by=%s undecided=%s %s' % (sid, meta['breaks_property'], ','.join(caught) or '-', ','.join(und) or '-',
           '; '.join('%s:%s' % (p, ','.join(x['obligations'])) for p, x in res.items() if x['rc'] == 1)), flush=True)
-rp = os.path.join(VERIF, 'seeded', 'RESULTS.json')
-allr = json.load(open(rp)) if os.path.exists(rp) else {}
-allr.update(out)
-json.dump(allr, open(rp, 'w'), indent=1, sort_keys=True)
+
